@@ -143,7 +143,7 @@ def run(tier, seed, t0):
     for nm, np_, known, pre in [("c16_push_consume", 1, True, 0), ("c16_prefilled_push_consume", 1, True, 1)] + ([("c16_push2_consume", 2, True, 0)] if tier == "thorough" else []):
         try:
             schedule_scenario(e3, nm, np_, known, pre)
-        except sym.Unsupported as ex:
+        except _e3.ENC_ERRORS as ex:
             e3.error(nm, "MIR->SMT encoding of AtomicSamplingReservoir", ex)
     obs = list(e3.res.obligations)
     obs += kani.run_group("util", [h for h in HARNESSES], tier, hooks=True)
